@@ -7,6 +7,11 @@
 
 extern "C" int omp_get_num_procs(void) noexcept { return 1; }
 extern "C" int omp_get_max_threads(void) noexcept { return 1; }
+extern "C" int omp_get_thread_num(void) noexcept { return 0; }      // pragmas are ignored in this build: every parallel region runs as a team of one
+extern "C" int omp_get_num_threads(void) noexcept { return 1; }
+extern "C" int omp_in_parallel(void) noexcept { return 0; }
+extern "C" void omp_set_num_threads(int) noexcept {}
+extern "C" int omp_get_thread_limit(void) noexcept { return 1; }
 
 #ifdef VERIF_ASAN
 extern "C" void __asan_on_error() {
@@ -196,7 +201,8 @@ struct Explorer {
     // all histories of length D whose first op index is `first_op`, from the given initial pairs
     void dynamic_bfs(const std::vector<std::pair<T, T>> &init, bool use_create, size_t fillers, int D, int first_op, const std::vector<T> &keys, const std::string &init_desc) {
         std::vector<Op> alphabet;
-        for (T k : keys) { alphabet.push_back({0, k, T(1)}); alphabet.push_back({0, k, T(2)}); }
+        const T second = std::is_signed_v<T> ? T(-1) : T(2);   // for the signed instantiations -1 is an ordinary value
+        for (T k : keys) { alphabet.push_back({0, k, T(1)}); alphabet.push_back({0, k, second}); }
         for (T k : keys) alphabet.push_back({1, k, 0});
         auto queries = dyn_queries(keys);
         std::vector<int> sel(D, 0); sel[0] = first_op;
